@@ -22,7 +22,7 @@ def frameMonStep (st : MonState) (w : List String) : MonState × String :=
   | some (frames, e) =>
     let startStream (s : Bytes) (parts : Option Parts) (name : String) : MonState × String :=
       let st1 : MonState := { stream := s, parts := parts, ref := none, spec := framesWhole s }
-      let bad := monRead st1 name false frames e
+      let bad := monRead st1 name false "eof" frames e
       ({ st1 with ref := if e = "panic" ∨ e = "hang" then none else some (frames, e) }, verdict bad)
     match op with
     | ["stream", h] => (match fromHex h with
@@ -35,11 +35,17 @@ def frameMonStep (st : MonState) (w : List String) : MonState × String :=
           if ps.ok then startStream ps.stream (some ps) "parts" else (st, "bad-op")
         | none => (st, "bad-op"))
     | ["cuts", sz, ed] => (match parseSizes? sz, parseYN? ed with
-        | some _, some _ => (st, verdict (monRead st "cuts" false frames e))
+        | some _, some _ => (st, verdict (monRead st "cuts" false "eof" frames e))
         | _, _ => (st, "bad-op"))
     | ["loop", sz, ed] => (match parseSizes? sz, parseYN? ed with
-        | some _, some _ => (st, verdict (monRead st "loop" true frames e))
+        | some _, some _ => (st, verdict (monRead st "loop" true "eof" frames e))
         | _, _ => (st, "bad-op"))
+    | ["cuts", sz, ed, ee] => (match parseSizes? sz, parseYN? ed, parseEndErr? ee with
+        | some _, some _, some ee => (st, verdict (monRead st "cuts" false ee frames e))
+        | _, _, _ => (st, "bad-op"))
+    | ["loop", sz, ed, ee] => (match parseSizes? sz, parseYN? ed, parseEndErr? ee with
+        | some _, some _, some ee => (st, verdict (monRead st "loop" true ee frames e))
+        | _, _, _ => (st, "bad-op"))
     | _ => (st, "bad-op")
 
 def frameMonFamily : Family := { σ := MonState, init := {}, step := frameMonStep }
